@@ -244,6 +244,11 @@ def closure_contracts(body, specs, where, prov):
             is_block = False
         ens = ", ".join(x.strip().rstrip(",") for x in cs["ensures"])
         req = (" requires " + ", ".join(cs["requires"])) if cs.get("requires") else ""
+        if cs.get("hoist"):
+            # class P: the parameter pattern becomes an identifier plus a `let PATTERN = ident;` as first statement
+            inner = "{ " + cs["hoist"] + " " + (inner[1:] if is_block else inner + " }")
+            is_block = True
+            prov.append({"cls": "P", "what": "closure parameter pattern hoisted: " + cs["hoist"]})
         new = "%s%s ensures %s %s" % (cs["typed"], req, ens, inner if is_block else "{ " + inner + " }")
         body = body[:a] + new + body[end:]
         prov.append({"cls": "A", "what": "closure contract on `%s`" % cs["params"], "text": cs["typed"] + " ensures " + ens})
@@ -403,6 +408,70 @@ def desugar_folds(body, count, where, prov):
     return body
 
 
+def lift_fold(sig, body, fl, where, prov):
+    """class D (lifted form, used when the fold closure has early returns):
+       `let N: T = ITER.fold(INIT, |mut ACC, X| BODY);` becomes
+       `let N: T = { let mut ACC: T = INIT; for X in ITER { ACC = STEP(ACC, X, captures..); } ACC };`
+       and `fn STEP(mut ACC: T, X: .., captures..) -> T BODY` with BODY verbatim (definition of Iterator::fold + closure conversion)."""
+    toks = code_tokens(body)
+    ks = [i for i, t in enumerate(toks) if t[1] == "fold" and toks[i - 1][1] == "." and toks[i + 1][1] == "("]
+    if len(ks) != 1:
+        raise LostAnchor("%s: %d fold sites, expected 1" % (where, len(ks)))
+    k = ks[0]
+    j, depth = k, 0
+    while j >= 0:
+        t = toks[j]
+        if t[0] == "punct" and t[1] in ")]}":
+            depth += 1
+        elif t[0] == "punct" and t[1] in "([{":
+            depth -= 1
+        if t[1] == "=" and depth == 0 and not (toks[j + 1][1] in "=>" and toks[j + 1][2] == t[3]) and not (toks[j - 1][1] in "=!<>" and toks[j - 1][3] == t[2]):
+            break
+        j -= 1
+    eq = j
+    l = eq
+    while toks[l][1] != "let":
+        l -= 1
+    colon = next(i for i in range(l, eq) if toks[i][1] == ":")
+    ty = body[toks[colon + 1][2]:toks[eq - 1][3]]
+    iter_txt = body[toks[eq + 1][2]:toks[k - 2][3]]
+    op = k + 1
+    cl = match_close(toks, op)
+    if toks[cl + 1][1] != ";":
+        raise LostAnchor("%s: fold is not the whole let initialiser" % where)
+    a = op + 1
+    c = a
+    while not (toks[c][1] == "," and toks[c][0] == "punct"):
+        if toks[c][0] == "punct" and toks[c][1] in "([{":
+            c = match_close(toks, c)
+        c += 1
+    init = body[toks[a][2]:toks[c - 1][3]]
+    if not (toks[c + 1][1] == "|" and toks[c + 2][1] == "mut" and toks[c + 4][1] == "," and toks[c + 6][1] == "|"):
+        raise LostAnchor("%s: fold closure parameters not of the form |mut ACC, X|" % where)
+    acc, x = toks[c + 3][1], toks[c + 5][1]
+    b0 = c + 7
+    if toks[b0][1] != "{":
+        raise LostAnchor("%s: fold closure body is not a block" % where)
+    b1 = match_close(toks, b0)
+    if b1 + 1 != cl:
+        raise LostAnchor("%s: fold closure is not the last argument" % where)
+    cbody = body[toks[b0][2]:toks[b1][3]]
+    locs = fn_locals(sig, body[:toks[l][2]])
+    used = set(t[1] for t in code_tokens(cbody) if t[0] == "id")
+    caps = sorted((used & locs) - {acc, x})
+    if caps != sorted(fl["captures"]):
+        raise LostAnchor("%s: fold closure captures %s, unit declares %s" % (where, caps, sorted(fl["captures"])))
+    if x != fl["elem"].split(":")[0].strip():
+        raise LostAnchor("%s: fold element is `%s`, unit declares `%s`" % (where, x, fl["elem"]))
+    lsig = "fn %s%s(mut %s: %s, %s, %s) -> %s" % (fl["name"], fl.get("generics", ""), acc, fl.get("acc_type", ty), fl["elem"],
+                                                ", ".join("%s: %s" % (cname, fl["capture_types"][cname]) for cname in fl["captures"]), fl.get("acc_type", ty))
+    call = "%s(%s, %s, %s%s)" % (fl["name"], acc, x, ", ".join(fl["captures"]), fl.get("ghost_args", ""))
+    new = "{\n        let mut %s: %s = %s;\n        for %s in %s {\n            %s = %s;\n        }\n        %s\n    };" % (acc, ty, init, x, iter_txt, acc, call, acc)
+    prov.append({"cls": "D", "what": "Iterator::fold desugared to a for loop; its closure lifted to fn %s (captures %s)" % (fl["name"], caps), "iter": iter_txt.strip()})
+    prov.append({"cls": "L", "what": "fold closure lifted to fn %s; body verbatim, returns keep their meaning" % fl["name"]})
+    return body[:toks[eq + 1][2]] + new + body[toks[cl + 1][3]:], lsig, cbody
+
+
 def spec_twin(item, name, sig_override, where, prov):
     """class A (ghost): a spec function whose body is the function's body text, verbatim (self -> x)."""
     body = strip_comments(item.body)
@@ -484,7 +553,10 @@ def splice_fn(item_text_sig, item_body, spec, where, prov, with_goals, goal_inde
     sig, where_clause = split_where(sig)
     if spec.get("ghost_params"):
         # class L/A: ghost parameters appended to the signature
-        k = sig.rfind(")")
+        stoks = code_tokens(sig)
+        po = next(i for i, t in enumerate(stoks) if t[1] == "(" and i > 0 and stoks[i - 1][1] != "pub")
+        # skip generics: the parameter list is the first '(' after the fn name / generic list
+        k = stoks[match_close(stoks, po)][2]
         sig = sig[:k].rstrip().rstrip(",") + ", " + spec["ghost_params"] + sig[k:]
         prov.append({"cls": "A", "what": "ghost parameters", "text": spec["ghost_params"]})
     chunks = [(sig + "\n", ("sig",))]
@@ -661,9 +733,15 @@ class Unit:
             if spec.get("desugar_folds"):
                 body = desugar_folds(body, spec["desugar_folds"], where, prov)
             lifted = None
+            lift_cfg = None
+            if spec.get("fold_lift"):
+                body, lsig, lbody = lift_fold(sig, body, spec["fold_lift"], where, prov)
+                lifted = (lsig, lbody)
+                lift_cfg = spec["fold_lift"]
             if spec.get("lift"):
                 body, lsig, lbody = lift_closure(sig, body, spec["lift"], where, prov)
                 lifted = (lsig, lbody)
+                lift_cfg = spec["lift"]
             body = closure_contracts(body, spec.get("closure"), where, prov)
             if spec.get("autofmt"):
                 body = auto_format(body, where, prov, self.fmt_patterns)
@@ -696,7 +774,7 @@ class Unit:
             chunks = splice_fn(sig, body, spec, where, prov, self.with_goals, gi)
             for cid, c in gi.items():
                 self.goal_index[cid] = dict(c, fn=label, props=c['props'] or spec.get('props', []))
-            if lifted and spec["lift"].get("no_enclosing"):
+            if lifted and lift_cfg.get("no_enclosing"):
                 # `_mut` walker: the enclosing function is not verified (aliasing &mut nodes cannot be iterated);
                 # only the lifted step is. Its composition is a walker-level assumption, named in the unit.
                 chunks = []
@@ -722,10 +800,11 @@ class Unit:
             self._flush(em)
             if lifted:
                 lsig, lbody = lifted
-                lspec = dict(spec["lift"].get("contract", {}))
+                lspec = dict(lift_cfg.get("contract", {}))
                 lspec.setdefault("props", spec.get("props", []))
-                llabel = "fn " + spec["lift"]["name"]
+                llabel = "fn " + lift_cfg["name"]
                 lbody = apply_edits(lbody, lspec.get("edit"), where + " (lifted)", prov)
+                lbody = closure_contracts(lbody, lspec.get("closure"), where + " (lifted)", prov)
                 if lspec.get("autofmt"):
                     lbody = auto_format(lbody, where, prov, self.fmt_patterns)
                 self.fn_props[llabel] = lspec["props"]
